@@ -14,7 +14,7 @@
 
 use std::fmt;
 
-use crate::ffi::{c_int, c_size_t, c_uchar, c_void, ubounded};
+use crate::ffi::{c_int, c_size_t, c_uchar, c_uint_fast32_t, c_void, ubounded};
 
 /// Simplicity error codes
 ///
@@ -292,7 +292,7 @@ pub mod dag {
 
         /// Given a well-formed dag\[i + 1\], set the `cmr` field of every node in `dag`
         #[link_name = "rustsimplicity_0_7_computeCommitmentMerkleRoot"]
-        pub fn simplicity_computeCommitmentMerkleRoot(dag: *mut CDagNode, i: c_size_t);
+        pub fn simplicity_computeCommitmentMerkleRoot(dag: *mut CDagNode, i: c_uint_fast32_t);
 
         /// Given a well-typed dag representing a Simplicity expression, compute
         /// the annotated Merkle roots of all subexpressions.
@@ -301,20 +301,23 @@ pub mod dag {
             analyses: *mut CAnalyses,
             dag: *const CDagNode,
             ty: *const CType,
-            len: c_size_t,
+            len: c_uint_fast32_t,
         );
 
         /// Verifies that the 'dag' is in canonical order, meaning that nodes
         /// under the left branches have lower indices than nodes under
         #[link_name = "rustsimplicity_0_7_verifyCanonicalOrder"]
-        pub fn simplicity_verifyCanonicalOrder(dag: *mut CDagNode, len: c_size_t) -> SimplicityErr;
+        pub fn simplicity_verifyCanonicalOrder(
+            dag: *mut CDagNode,
+            len: c_uint_fast32_t,
+        ) -> SimplicityErr;
 
         /// Fills in the 'WITNESS' nodes of a 'dag' with the data from 'witness'
         #[link_name = "rustsimplicity_0_7_fillWitnessData"]
         pub fn simplicity_fillWitnessData(
             dag: *mut CDagNode,
             type_dag: *mut CType,
-            len: c_size_t,
+            len: c_uint_fast32_t,
             witness: *mut CBitstream,
         ) -> SimplicityErr;
 
@@ -324,7 +327,7 @@ pub mod dag {
             ihr: *mut CSha256Midstate,
             dag: *const CDagNode,
             type_dag: *const CType,
-            len: c_size_t,
+            len: c_uint_fast32_t,
         ) -> SimplicityErr;
     }
 }
@@ -370,7 +373,7 @@ pub mod elements {
             word256_ix: *mut c_size_t,
             extra_var_start: *mut c_size_t,
             extra_var_len: c_size_t,
-        ) -> SimplicityErr;
+        ) -> c_size_t;
     }
 }
 
@@ -554,7 +557,7 @@ pub mod type_inference {
         *mut c_size_t,
         *mut c_size_t,
         c_size_t,
-    ) -> SimplicityErr;
+    ) -> c_size_t;
 
     extern "C" {
         /// If the Simplicity DAG, 'dag', has a principal type (including constraints
@@ -565,7 +568,7 @@ pub mod type_inference {
             type_dag: *mut *mut CType,
             decodeJet: CCallbackMallocBoundVars,
             dag: *mut CDagNode,
-            len: c_size_t,
+            len: c_uint_fast32_t,
             census: *const CCombinatorCounters,
         ) -> SimplicityErr;
     }
